@@ -338,6 +338,63 @@ def r2_one_formula(repo=None):
                     "sample's own index", line=fmt.lineno)
         return r
     r.note("writer: file timestamp of sample k = %s" % pysym.show(file_c))
+    # contract between the candidate-list method and its callers: the bounds are sample indices, inclusive.  A constant added to (or
+    # subtracted from) a bound inside the method has to be undone by *every* caller: net shift per call site (linear, constants only)
+    def unwrap(e):
+        while isinstance(e, ast.Call) and pyfront.call_name(e) in ("int", "np.uint64", "np.int64") and len(e.args) == 1:
+            e = e.args[0]
+        return e
+
+    def shift_of(tree, name):
+        """the constants c of sub-expressions `name + c` / `name - c` in tree"""
+        out = set()
+        for x in ast.walk(tree):
+            if isinstance(x, ast.BinOp) and isinstance(x.op, (ast.Add, ast.Sub)):
+                l, rr = unwrap(x.left), unwrap(x.right)
+                if isinstance(l, ast.Name) and l.id == name and isinstance(rr, ast.Constant) and isinstance(rr.value, int) and rr.value != 0:
+                    out.add(rr.value if isinstance(x.op, ast.Add) else -rr.value)
+                elif isinstance(rr, ast.Name) and rr.id == name and isinstance(l, ast.Constant) and isinstance(l.value, int) and l.value != 0 \
+                        and isinstance(x.op, ast.Add):
+                    out.add(l.value)
+        return out
+    ro_ = dmdroles.roles(repo)
+    mm = ro_.m
+    raw_rf = mm.fn(ro_.filelist)
+    rparams = [a.arg for a in raw_rf.args.args if a.arg != "self"]
+    callee_shift = {}
+    for p in params:
+        sh = shift_of(raw_rf, p)
+        if len(sh) > 1:
+            raise AnalysisError("%s: `%s` is shifted by several constants %s" % (qr, p, sorted(sh)))
+        callee_shift[p] = sh.pop() if sh else 0
+    if any(callee_shift.values()):
+        for q_, f_ in mm.functions.items():
+            if not q_.startswith(R + ".") or "<locals>" in q_:
+                continue
+            for c in ast.walk(f_):
+                if isinstance(c, ast.Call) and pyfront.call_name(c) == "self." + ro_.filelist_name:
+                    for p in params:
+                        if p not in rparams or not callee_shift.get(p):
+                            continue
+                        i_ = rparams.index(p)
+                        a = c.args[i_] if i_ < len(c.args) else pyfront.kwarg(c, p)
+                        if a is None:
+                            continue
+                        a0 = unwrap(a)
+                        caller = 0
+                        if isinstance(a0, ast.BinOp) and isinstance(a0.op, (ast.Add, ast.Sub)) and isinstance(unwrap(a0.right), ast.Constant) \
+                                and isinstance(unwrap(a0.right).value, int):
+                            caller = unwrap(a0.right).value if isinstance(a0.op, ast.Add) else -unwrap(a0.right).value
+                        net = caller + callee_shift[p]
+                        if net != 0:
+                            r.violation(mm.rel, q_, norm(ast.unparse(c))[:80], "%s shifts its bound `%s` by %+d before computing the file it lies in, "
+                                        "and this caller passes `%s` (shift %+d): the candidate list is built for sample %s%+d - when the sample "
+                                        "is the first one of a file (or of a sub-directory) the file that holds it is not in the list and the "
+                                        "reader does not look where the writer put it" % (ro_.filelist_name, p, callee_shift[p],
+                                                                                          norm(ast.unparse(a))[:30], caller, p, net), line=c.lineno)
+        if r.findings:
+            r.guard(1)
+            return r
     for p in params:
         if not forms[p]:
             raise AnalysisError("%s: no local derived from `%s` is used in the listing loop" % (qr, p))
